@@ -1,6 +1,7 @@
 import PqlModel.Props.C07
 import PqlModel.Props.C07Full
 import PqlModel.Props.C07Layout
+import PqlModel.Props.C07Keywords
 #print axioms Pql.C07.C07_precedence_table
 #print axioms Pql.C07.C07_spec_prec_eq_model
 #print axioms Pql.C07.C07_join_kinds
@@ -39,3 +40,5 @@ import PqlModel.Props.C07Layout
 #print axioms Pql.Layout.C07_synonyms_not_tokenwise
 #print axioms Pql.Layout.C07_layout_demo
 #print axioms Pql.Layout.C07_synonyms_demo
+#print axioms Pql.C07K.C07_keyword_table
+#print axioms Pql.C07K.C07_operator_table
